@@ -216,8 +216,10 @@ class Terminal(Service, discriminator="terminal"):
             command: str = request[1]["command"]
             remote_connection = self._get_connection_from_ip(ip_address=ip_address)
             if remote_connection:
+                self._last_response = None  # only a reply to this command may be reported
                 remote_connection.execute(command)
-                return self.last_response if not None else RequestResponse(status="failure", data={})
+                if self.last_response is not None:
+                    return self.last_response
             return RequestResponse(
                 status="failure",
                 data={"reason": "Failed to execute command."},
